@@ -39,7 +39,7 @@ def gen(st, tier):
     w = st["workload"]
     cfgs = [G.config_spec(w, naming=n, code=c, bus=b, nvals=w.choice([1, 2, 4]))
             for n, c, b in (("full", True, False), ("none", False, True), ("name-only", True, None),
-                            ("dev", None, None), (None, None, None))]
+                            (w.choice(["dev", "both"]), True if w.random() < 0.7 else None, None), (None, None, None))]
     ops = []
     n = w.choice([3, 4, 5, 6, 8, 10, 12])
     for _ in range(n):
